@@ -544,9 +544,96 @@ def drain_map(interp: Interp, st: St, f: V, itv: V):
         yield from quantified_map(interp, s, r[1], lambda s2, el: interp.call(s2, f, [el], {}))
 
 
+def eval_multi_comprehension(interp: Interp, node, st: St, kind):
+    """several `for` clauses: every iterable must have statically known content (unrolled)"""
+    gens = node.generators
+
+    def go(gi, s, acc):
+        if gi == len(gens):
+            if kind == "dict":
+                for s2, rr in interp.eval_list([node.key, node.value], s):
+                    yield (s2, rr) if rr[0] != "ok" else (s2, ("ok", acc + [V("tuple", rr[1])]))
+            else:
+                for s2, rr in interp.eval(node.elt, s):
+                    yield (s2, rr) if rr[0] != "ok" else (s2, ("ok", acc + [rr[1]]))
+            return
+        g = gens[gi]
+        for s1, r in interp.eval(g.iter, s):
+            if r[0] != "ok":
+                yield s1, r
+                continue
+            x = r[1]
+            if x.kind == "gen":
+                res = list(iterate_concrete(interp, s1, x))
+            else:
+                items = as_concrete_items(interp, s1, x)
+                if items is None:
+                    raise Unsupported("comprehension with several generators over a symbolic sequence")
+                res = [(s1, ("ok", items))]
+            for s2, r2 in res:
+                if r2[0] != "ok":
+                    yield s2, r2
+                    continue
+
+                def each(i, s3, acc3, items=r2[1]):
+                    if i == len(items):
+                        yield s3, ("ok", acc3)
+                        return
+                    for s4, sig in interp.assign(g.target, items[i], s3):
+                        if sig is not None:
+                            yield s4, sig
+                            continue
+
+                        def conds(ci, s5):
+                            if ci == len(g.ifs):
+                                yield s5, True
+                                return
+                            for s6, rr in interp.eval(g.ifs[ci], s5):
+                                if rr[0] != "ok":
+                                    yield s6, rr
+                                    continue
+                                for s7, b in interp.truth(s6, rr[1]):
+                                    if b:
+                                        yield from conds(ci + 1, s7)
+                                    else:
+                                        yield s7, False
+                        for s5, c in conds(0, s4):
+                            if c is True:
+                                for s6, r6 in go(gi + 1, s5, acc3):
+                                    if r6[0] != "ok":
+                                        yield s6, r6
+                                    else:
+                                        yield from each(i + 1, s6, r6[1])
+                            elif c is False:
+                                yield from each(i + 1, s5, acc3)
+                            else:
+                                yield s5, c
+                yield from each(0, s2, acc)
+    saved = dict(st.env)
+    for s, r in go(0, st, []):
+        s.env = dict(saved)
+        if r[0] != "ok":
+            yield s, r
+            continue
+        items = r[1]
+        from .builtins_theory import make_sequence
+        if kind == "list":
+            yield s, ("ok", interp.new_list(s, items))
+        elif kind == "gen":
+            v = V("tuple", items)
+            yield s, ("ok", v)
+        elif kind == "set":
+            yield s, ("ok", make_sequence(interp, s, set, ("items", items)))
+        else:
+            yield s, ("ok", interp.new_dict(s, [tuple(p.d) for p in items]))
+
+
 def eval_comprehension(interp: Interp, node, st: St, kind):
-    if len(node.generators) != 1 or node.generators[0].is_async:
-        raise Unsupported("comprehension with several generators")
+    if len(node.generators) != 1:
+        yield from eval_multi_comprehension(interp, node, st, kind)
+        return
+    if node.generators[0].is_async:
+        raise Unsupported("async comprehension")
     g = node.generators[0]
     for s0, r in interp.eval(g.iter, st):
         if r[0] != "ok":
